@@ -668,6 +668,10 @@ class Interp(ExprMixin, StmtMixin):
             key = kwargs.get("key")
             if isinstance(v, (list, tuple, set)) and not any(is_z3(x) for x in v) and key is None:
                 return sorted(v, reverse=bool(kwargs.get("reverse", False)))
+            if isinstance(v, (list, tuple, set)) and not any(is_z3(x) for x in v):
+                keyed = [(self.call_value(key, [x], {}, None, None), x) for x in v]
+                if not any(is_z3(kx) for kx, _ in keyed):
+                    return [x for _, x in sorted(keyed, key=lambda t: t[0], reverse=bool(kwargs.get("reverse", False)))]
             if isinstance(v, SymSetView) and not kwargs.get("reverse"):
                 return self.sorted_set_contract(v.src, key, w)
             raise Unsupported("sorted(%s) at %s" % (type(v).__name__, w))
